@@ -76,6 +76,11 @@ type Config struct {
 	// operation fail but leaves the callers' contexts alone (a transport whose
 	// lifetime is not tied to the contexts the calls were given).
 	TeardownKeepsContexts bool
+	// StreamIgnoresContexts: SendMsg/RecvMsg do not observe the context the
+	// call was given (a transport with a life of its own: only its teardown
+	// ends pending operations). The code under test must notice a cancelled
+	// context by itself.
+	StreamIgnoresContexts bool
 }
 
 var ErrTornDown = errors.New("stream torn down")
@@ -193,6 +198,14 @@ func (p *Pair) TornDown() bool {
 
 func (e *End) Context() context.Context { return e.ctx }
 
+// ctxDone is what stream operations select on for the endpoint's context.
+func (e *End) ctxDone() <-chan struct{} {
+	if e.pair.cfg.StreamIgnoresContexts {
+		return nil
+	}
+	return e.ctx.Done()
+}
+
 // Cancel cancels only this endpoint's context.
 func (e *End) Cancel() { e.cancel() }
 
@@ -274,7 +287,7 @@ func (e *End) SendMsg(m interface{}) error {
 		ev.Err = ErrTornDown.Error()
 		e.pair.record(ev)
 		return ErrTornDown
-	case <-e.ctx.Done():
+	case <-e.ctxDone():
 		ev.Err = e.ctx.Err().Error()
 		e.pair.record(ev)
 		return e.ctx.Err()
@@ -286,7 +299,7 @@ func (e *End) SendMsg(m interface{}) error {
 		ev.Err = ErrTornDown.Error()
 		e.pair.record(ev)
 		return ErrTornDown
-	case <-e.ctx.Done():
+	case <-e.ctxDone():
 		ev.Err = e.ctx.Err().Error()
 		e.pair.record(ev)
 		return e.ctx.Err()
@@ -352,7 +365,7 @@ func (e *End) RecvMsg(m interface{}) error {
 			}
 		case <-e.pair.down:
 			return fail(ErrTornDown)
-		case <-e.ctx.Done():
+		case <-e.ctxDone():
 			return fail(e.ctx.Err())
 		}
 	}
